@@ -11,6 +11,18 @@ from engine.inline import KNOWN_FILE
 
 repo = Repo(sys.argv[1] if len(sys.argv) > 1 else "/repo", look_through_helpers=False)
 names = sorted(repo.all_functions)
+# compiled sources: functions and methods of the .pyx files (parsed, never built)
+try:
+    from engine import cysrc
+
+    for rel in repo.list_files((".pyx",)):
+        m = cysrc.parse(repo, rel)
+        names += [f"{rel}:{f}" for f in m.functions]
+        for c in m.classes:
+            names += [f"{rel}:{c.name}.{f}" for f in c.methods]
+    names = sorted(set(names))
+except ImportError as e:
+    print("Cython parser not available:", e)
 with open(KNOWN_FILE, "w", encoding="utf-8") as f:
     f.write("# functions of the pinned tree (qualnames); see engine/inline.py\n")
     for n in names:
